@@ -1,6 +1,7 @@
 package main
 
 import (
+	"go/token"
 	"fmt"
 	"go/ast"
 	"go/constant"
@@ -533,64 +534,211 @@ func c03ExitCodeMap(c *Check, a *Anchors) {
 		}
 		return "other:" + exprStr(e)
 	}
-	type exitSite struct {
-		node  ast.Node // the os.Exit call or the helper's return
-		kind  string
-		fb    *FuncBody
-		guard string // fact that must hold for the TaskExitCode case
+	// the mapping error -> exit status, decided per class of error by abstract evaluation of main's error branch (or of the
+	// helper main hands the error to): type assertions, type switches and tests of flags.ExitCode are interpreted for
+	// {*TaskRunError with / without --exit-code, another TaskError, any other error}; the first os.Exit / return wins
+	type errClass struct {
+		name            string
+		runErr, taskErr bool
+		flag            bool
 	}
-	var exits []exitSite
-	inspectBody(mainFn.Body, func(nd ast.Node) bool {
-		call, ok := nd.(*ast.CallExpr)
-		if !ok || !isFunc(callee(info, call), "os", "", "Exit") || len(call.Args) != 1 {
+	classes := []errClass{
+		{"*TaskRunError with --exit-code", true, true, true},
+		{"*TaskRunError without --exit-code", true, true, false},
+		{"another TaskError with --exit-code", false, true, true},
+		{"another TaskError", false, true, false},
+		{"any other error", false, false, false},
+		{"any other error with --exit-code", false, false, true},
+	}
+	wantExit := []string{"TaskExitCode", "Code", "Code", "Code", "const:CodeUnknown", "const:CodeUnknown"}
+	isFlag := func(inf *types.Info, e ast.Expr, flagParam *types.Var) bool {
+		e = ast.Unparen(e)
+		if sel, ok := e.(*ast.SelectorExpr); ok && fieldKey(inf, sel) == "pkgvar:flags.ExitCode" {
 			return true
 		}
-		// os.Exit(helper(err, flags.ExitCode)): the helper's returns, in order, are the exit values
-		if hc, ok := ast.Unparen(call.Args[0]).(*ast.CallExpr); ok {
-			if fn, ok := callee(info, hc).(*types.Func); ok {
-				if h := c.P.DeclOf(fn); h != nil && h.Pkg == mainFn.Pkg {
-					c.Fn(h)
-					guard := "true:pkgvar:flags.ExitCode"
-					pi := 0
-					for _, fld := range h.Type.Params.List {
-						for _, id := range fld.Names {
-							if pi < len(hc.Args) {
-								if sel, ok := ast.Unparen(hc.Args[pi]).(*ast.SelectorExpr); ok && fieldKey(info, sel) == "pkgvar:flags.ExitCode" {
-									if pv, ok := h.Info().Defs[id].(*types.Var); ok {
-										guard = fmt.Sprintf("true:var:%s#%d", pv.Name(), pv.Pos())
-									}
-								}
-							}
-							pi++
-						}
-					}
-					for _, r := range returnsOf(h.Body) {
-						if len(r.Results) == 1 {
-							exits = append(exits, exitSite{r, classify(h.Info(), r.Results[0]), h, guard})
-						}
-					}
-					return true
+		return flagParam != nil && varOf(inf, e) == flagParam
+	}
+	matches := func(inf *types.Info, t ast.Expr, cl errClass) bool {
+		tv, ok := inf.Types[t]
+		if !ok {
+			return false
+		}
+		ts := types.TypeString(tv.Type, nil)
+		switch {
+		case strings.HasSuffix(ts, "errors.TaskRunError"):
+			return cl.runErr
+		case strings.HasSuffix(ts, "errors.TaskError"):
+			return cl.taskErr
+		}
+		return false
+	}
+	var eval func(inf *types.Info, list []ast.Stmt, cl errClass, flagParam *types.Var, okVars map[*types.Var]bool) (string, bool)
+	var evalCond func(inf *types.Info, e ast.Expr, cl errClass, flagParam *types.Var, okVars map[*types.Var]bool) (bool, bool)
+	evalCond = func(inf *types.Info, e ast.Expr, cl errClass, flagParam *types.Var, okVars map[*types.Var]bool) (bool, bool) {
+		e = ast.Unparen(e)
+		switch x := e.(type) {
+		case *ast.BinaryExpr:
+			l, lk := evalCond(inf, x.X, cl, flagParam, okVars)
+			r, rk := evalCond(inf, x.Y, cl, flagParam, okVars)
+			if x.Op == token.LAND && lk && rk {
+				return l && r, true
+			}
+			if x.Op == token.LOR && lk && rk {
+				return l || r, true
+			}
+			return false, false
+		case *ast.UnaryExpr:
+			if x.Op == token.NOT {
+				v, k := evalCond(inf, x.X, cl, flagParam, okVars)
+				return !v, k
+			}
+		case *ast.Ident:
+			if v := varOf(inf, x); v != nil {
+				if val, ok := okVars[v]; ok {
+					return val, true
 				}
 			}
 		}
-		exits = append(exits, exitSite{call, classify(info, call.Args[0]), mainFn, "true:pkgvar:flags.ExitCode"})
-		return true
-	})
-	var seq []string
-	for _, e := range exits {
-		seq = append(seq, e.kind)
+		if isFlag(inf, e, flagParam) {
+			return cl.flag, true
+		}
+		return false, false
 	}
-	wantSeq := []string{"TaskExitCode", "Code", "const:CodeUnknown", "const:CodeOk"}
-	okSeq := strings.Join(seq, ",") == strings.Join(wantSeq, ",")
-	c.Decide(okSeq, "exit-code-map", "main-exit-order", mainFn.Decl.Pos(), "exit values in order: "+strings.Join(seq, ", "),
-		"main's exit values are "+strings.Join(seq, ", ")+"; expected "+strings.Join(wantSeq, ", ")+" (the --exit-code case must be tested before the generic TaskError case, the fallback must be CodeUnknown)")
-	// the TaskExitCode exit must be guarded by the *TaskRunError assertion and flags.ExitCode
-	if len(exits) > 0 && exits[0].kind == "TaskExitCode" {
-		f := NewFlow(c.P, exits[0].fb, func(call *ast.CallExpr, obj types.Object) string { return "" })
-		f.NoInline = true
-		f.Run()
-		st := f.At[exits[0].node]
-		c.Decide(st.Has(exits[0].guard), "exit-code-map", "exit-code-flag-guard", exits[0].node.Pos(), "TaskExitCode is used only when flags.ExitCode is set", "the command's own exit code is used without the --exit-code flag being tested; must-facts: "+st.String())
+	eval = func(inf *types.Info, list []ast.Stmt, cl errClass, flagParam *types.Var, okVars map[*types.Var]bool) (string, bool) {
+		for _, st := range list {
+			switch x := st.(type) {
+			case *ast.ReturnStmt:
+				if len(x.Results) == 1 {
+					return classify(inf, x.Results[0]), true
+				}
+			case *ast.ExprStmt:
+				if call, ok := ast.Unparen(x.X).(*ast.CallExpr); ok && isFunc(callee(inf, call), "os", "", "Exit") && len(call.Args) == 1 {
+					// os.Exit(helper(err, flag)): evaluate the helper
+					if hc, ok := ast.Unparen(call.Args[0]).(*ast.CallExpr); ok {
+						if fn, ok := callee(inf, hc).(*types.Func); ok {
+							if h := c.P.DeclOf(fn); h != nil && h.Pkg == mainFn.Pkg {
+								c.Fn(h)
+								var fp *types.Var
+								pi := 0
+								for _, fld := range h.Type.Params.List {
+									for _, id := range fld.Names {
+										if pi < len(hc.Args) && isFlag(inf, hc.Args[pi], flagParam) {
+											fp, _ = h.Info().Defs[id].(*types.Var)
+										}
+										pi++
+									}
+								}
+								return eval(h.Info(), h.Body.List, cl, fp, map[*types.Var]bool{})
+							}
+						}
+					}
+					return classify(inf, call.Args[0]), true
+				}
+			case *ast.IfStmt:
+				ok2 := map[*types.Var]bool{}
+				for k, v := range okVars {
+					ok2[k] = v
+				}
+				if as, isAs := x.Init.(*ast.AssignStmt); isAs && len(as.Lhs) == 2 && len(as.Rhs) == 1 {
+					if ta, isTA := ast.Unparen(as.Rhs[0]).(*ast.TypeAssertExpr); isTA && ta.Type != nil {
+						if v := varOf(inf, as.Lhs[1]); v != nil {
+							ok2[v] = matches(inf, ta.Type, cl)
+						}
+					}
+				}
+				val, known := evalCond(inf, x.Cond, cl, flagParam, ok2)
+				if !known {
+					// a condition about something else (err != nil ...): look inside, then go on
+					if out, done := eval(inf, x.Body.List, cl, flagParam, ok2); done {
+						return out, true
+					}
+					continue
+				}
+				if val {
+					if out, done := eval(inf, x.Body.List, cl, flagParam, ok2); done {
+						return out, true
+					}
+				} else if x.Else != nil {
+					if eb, isB := x.Else.(*ast.BlockStmt); isB {
+						if out, done := eval(inf, eb.List, cl, flagParam, ok2); done {
+							return out, true
+						}
+					} else if ei, isI := x.Else.(*ast.IfStmt); isI {
+						if out, done := eval(inf, []ast.Stmt{ei}, cl, flagParam, ok2); done {
+							return out, true
+						}
+					}
+				}
+			case *ast.TypeSwitchStmt:
+				var def *ast.CaseClause
+				taken := false
+				for _, clause := range x.Body.List {
+					cc := clause.(*ast.CaseClause)
+					if cc.List == nil {
+						def = cc
+						continue
+					}
+					hit := false
+					for _, t := range cc.List {
+						if matches(inf, t, cl) {
+							hit = true
+						}
+					}
+					if hit {
+						taken = true
+						if out, done := eval(inf, cc.Body, cl, flagParam, okVars); done {
+							return out, true
+						}
+						break
+					}
+				}
+				if !taken && def != nil {
+					if out, done := eval(inf, def.Body, cl, flagParam, okVars); done {
+						return out, true
+					}
+				}
+			case *ast.BlockStmt:
+				if out, done := eval(inf, x.List, cl, flagParam, okVars); done {
+					return out, true
+				}
+			}
+		}
+		return "", false
+	}
+	// the error branch of main: the body of `if err := run(); err != nil { ... }`
+	var errBranch []ast.Stmt
+	for _, st := range mainFn.Body.List {
+		if ifs, ok := st.(*ast.IfStmt); ok {
+			if be, ok := ast.Unparen(ifs.Cond).(*ast.BinaryExpr); ok && be.Op == token.NEQ && isNilLit(info, be.Y) && isErrorType(typeOf(info, be.X)) {
+				errBranch = ifs.Body.List
+			}
+		}
+	}
+	if errBranch == nil {
+		c.Bad("exit-code-map", "main-exit-order", mainFn.Decl.Pos(), "main has no `if err != nil` branch that maps the error of run() to an exit status")
+	} else {
+		var bad []string
+		for i, cl := range classes {
+			got, done := eval(info, errBranch, cl, nil, map[*types.Var]bool{})
+			if !done {
+				got = "no exit reached"
+			}
+			if got != wantExit[i] {
+				bad = append(bad, fmt.Sprintf("%s exits with %s, expected %s", cl.name, got, wantExit[i]))
+			}
+		}
+		c.Decide(len(bad) == 0, "exit-code-map", "main-exit-order", mainFn.Decl.Pos(), "TaskExitCode only for *TaskRunError with --exit-code, Code() for every TaskError, CodeUnknown otherwise",
+			"main maps errors to exit statuses wrongly: "+strings.Join(bad, "; "))
+		// success exits 0
+		last := "none"
+		for _, st := range mainFn.Body.List {
+			if es, ok := st.(*ast.ExprStmt); ok {
+				if call, ok := ast.Unparen(es.X).(*ast.CallExpr); ok && isFunc(callee(info, call), "os", "", "Exit") && len(call.Args) == 1 {
+					last = classify(info, call.Args[0])
+				}
+			}
+		}
+		c.Decide(last == "const:CodeOk" || last == "none", "exit-code-map", "success-exit", mainFn.Decl.Pos(), "a successful run exits with CodeOk", "after a successful run main exits with "+last)
 	}
 	// 4. TaskExitCode returns the exit status when there is one
 	tec := c.P.Func(PkgErrors, "TaskRunError", "TaskExitCode")
